@@ -9,9 +9,9 @@ LEVEL = "exploration"
 RULE = (
     "histories of operations on ONE cutplace.Cid object; operations (each over three small data sets that share key and "
     "value cells): read completely (yield mode + close; raise mode through cutplace.rows), read and abandon after k = 0, 1, "
-    "2 items (generator and reader closed, or everything just dropped), read without closing, two complete runs of one Reader, reader closed without "
-    "iterating, validate with limit 0, validate, write rows without close, write and close, CutplaceApp.validate (the command line's per-file step) - 54 operations - on CIDs with "
-    "IsUnique, DistinctCount, or both. Oracle: history + model where the model is the implementation with fresh state: the "
+    "2 items (generator and reader closed, or everything just dropped), read without closing, two complete runs of one Reader, a Reader created before the history begins and read at its turn, reader closed without "
+    "iterating, validate with limit 0, validate, write rows without close, write and close, CutplaceApp.validate (the command line's per-file step) - 57 operations - on CIDs with "
+    "IsUnique, DistinctCount, or both (delimited) and a fixed CID without a declared line delimiter whose data sets end their lines with CR LF. Oracle: history + model where the model is the implementation with fresh state: the "
     "outcome of the last operation of every history (items, rejections with row numbers, end-of-data result, written text, "
     "counters) must equal the outcome of the same operation on a freshly loaded CID. Quick: all histories of length <= 2 "
     "plus random ones of length 3-4; thorough: all of length <= 3 plus random ones of length 5-8. Plus pairs of runs (reader / writer over the three "
@@ -28,7 +28,11 @@ DATASETS = {
 }
 FIELDS = [{"name": "key", "type": "Text", "empty": False, "length": "", "rule": ""},
           {"name": "val", "type": "Text", "empty": False, "length": "", "rule": ""}]
+FIXED_FIELDS = [dict(f, length="1") for f in FIELDS]
 CIDS = {
+    # fixed data without a declared line delimiter ("any"): the data sets are read with CR LF line ends and written
+    # with the platform's line end - what a writer resolved for itself must not become part of the CID
+    "fixed-unique": [{"desc": "u", "type": "IsUnique", "fields": ["key"]}],
     "unique": [{"desc": "u", "type": "IsUnique", "fields": ["key"]}],
     "distinct": [{"desc": "d", "type": "DistinctCount", "field": "val", "op": ">=", "n": 2}],
     "both": [{"desc": "u", "type": "IsUnique", "fields": ["key"]}, {"desc": "d", "type": "DistinctCount", "field": "val", "op": ">=", "n": 2}],
@@ -56,6 +60,9 @@ def operations():
         ops.append(("read-dropping-kept", d))
         # one Reader used for two complete runs (read, close, rewind the stream, read, close)
         ops.append(("read-twice-one-reader", d))
+        # a Reader that exists since before the first operation of the history (readers = [Reader(cid, f) for f in
+        # files], then one after the other): its run begins when its rows are asked for
+        ops.append(("read-created-early", d))
     return ops
 
 
@@ -83,24 +90,24 @@ def err(e):
 KEPT = []  # generators of abandoned iterations that are still referenced (cleared at the start of every history)
 
 
-def perform(cid, op):
+def perform(cid, op, early=None):
     """Executes one operation with the real API; returns its JSON-able outcome."""
     import cutplace
     from cutplace import errors, validio
 
     kind, d = op[0], op[1]
     rows = DATASETS[d]
-    text = storage.delimited_text(rows)
+    text = text_for(cid, rows)
     out = {"op": list(op)}
     try:
-        if kind in ("read", "read-noclose"):
-            reader = validio.Reader(cid, source_for(d, text), on_error="yield")
+        if kind in ("read", "read-noclose", "read-created-early"):
+            reader = early if early is not None else validio.Reader(cid, source_for(d, text), on_error="yield")
             items = []
             for item in reader.rows():
                 items.append(err(item) if isinstance(item, Exception) else item)
             out["items"] = items
             out["counters"] = [reader.accepted_rows_count, reader.rejected_rows_count]
-            if kind == "read":
+            if kind != "read-noclose":
                 try:
                     reader.close()
                     out["end"] = None
@@ -247,7 +254,15 @@ def fresh_outcome(cid_kind, op):
 
 
 def new_cid(cid_kind):
+    if cid_kind.startswith("fixed"):
+        return gen.load_cid(RM.CidModel("fixed", FIXED_FIELDS, CIDS[cid_kind], line_delimiter=None))
     return gen.load_cid(RM.CidModel("delimited", FIELDS, CIDS[cid_kind]))
+
+
+def text_for(cid, rows):
+    if cid.data_format.format == "fixed":
+        return storage.fixed_text(rows, [1, 1], delimiter="\r\n")
+    return storage.delimited_text(rows)
 
 
 def check_history(ctx, cid_kind, history, compare_all=False):
@@ -255,8 +270,12 @@ def check_history(ctx, cid_kind, history, compare_all=False):
     ctx.case(case, len(history) >= 2)
     cid = new_cid(cid_kind)
     del KEPT[:]
+    from cutplace import validio
+
+    early = {index: validio.Reader(cid, source_for(op[1], text_for(cid, DATASETS[op[1]])), on_error="yield")
+             for index, op in enumerate(history) if op[0] == "read-created-early"}
     for index, op in enumerate(history):
-        outcome = perform(cid, op)
+        outcome = perform(cid, op, early.get(index))
         ctx.count("operations")
         if "second_run" in outcome:
             first_run = {k: outcome[k] for k in ("items", "end", "counters")}
@@ -295,7 +314,7 @@ class Run(object):
         if not self.opened:
             self.opened = True
             if self.kind == "reader":
-                self.validator = validio.Reader(cid, source_for(self.d, storage.delimited_text(rows)), on_error="yield")
+                self.validator = validio.Reader(cid, source_for(self.d, text_for(cid, rows)), on_error="yield")
                 self.generator = self.validator.rows()
             else:
                 self.target = io.StringIO(newline="")
@@ -353,13 +372,25 @@ def check_overlap(ctx, cid_kind, runs, schedule):
         return
     ctx.count("overlapping-histories")
     got = [r.outcome() for r in live]
-    first_b = schedule.index(1) if 1 in schedule else len(schedule)
-    last_a = max(i for i, w in enumerate(schedule) if w == 0)
-    sequential = first_b > last_a
+    overlapping = overlap_in_time(runs, schedule)
+    ctx.count("overlapping-histories.%s" % ("runs-overlap" if overlapping else "one-run-after-the-other"))
     if got != want:
-        key = "C08:read-after-read" if sequential else "C08:overlapping-runs-share-check-state"
-        ctx.violation(key, case, "a run that overlaps in time with another run on the same CID has another outcome than on a freshly loaded CID",
+        key = "C08:overlapping-runs-share-check-state" if overlapping else "C08:run-after-run"
+        ctx.violation(key, case, "a run %s another run on the same CID has another outcome than on a freshly loaded CID" % ("that overlaps in time with" if overlapping else "before or after"),
                       expected=want, observed=got)
+
+
+def overlap_in_time(runs, schedule):
+    """Two runs overlap when a step of one (creation, a row, close) falls between the beginning and the end of the
+    other. A Reader's run begins when its first row is asked for - a Reader that merely exists does not run yet - a
+    Writer's when it is created."""
+    steps = [[i for i, who in enumerate(schedule) if who == me] for me in (0, 1)]
+    for me, other in ((0, 1), (1, 0)):
+        mine = steps[me]
+        begin = mine[1] if runs[me][0] == "reader" and len(mine) > 1 else mine[0]
+        if any(begin < step < mine[-1] for step in steps[other]):
+            return True
+    return False
 
 
 def family(kind):
@@ -388,7 +419,7 @@ def run(ctx):
                 if ctx.mine(index):
                     check_history(ctx, cid_kind, history)
     ctx.exhaustive = True
-    ctx.note("exhaustive part: all histories of length <= %d over 54 operations x 4 CIDs; longer histories are sampled" % max_len)
+    ctx.note("exhaustive part: all histories of length <= %d over 57 operations x 4 CIDs; longer histories are sampled" % max_len)
     n = ctx.pick(2500, 20000)
     lo, hi = ctx.pick((3, 4), (5, 8))
     for i in range(n):
@@ -413,10 +444,14 @@ def overlap_case(ctx, i):
     elif shape < 0.75:
         # lockstep, like copying the rows of a reader into a writer or comparing two files side by side
         schedule = [w for pair in itertools.zip_longest([0] * counts[0], [1] * counts[1]) for w in pair if w is not None]
-    else:
+    elif shape < 0.9:
         # B runs completely while A is under way (or before A is closed)
         cut = rng.randint(1, counts[0] - 1)
         schedule = [0] * cut + [1] * counts[1] + [0] * (counts[0] - cut)
+    else:
+        # both created up front, then one after the other (in either order)
+        first = rng.choice([0, 1])
+        schedule = [first, 1 - first] + [first] * (counts[first] - 1) + [1 - first] * (counts[1 - first] - 1)
     check_overlap(ctx, rng.choice(sorted(CIDS)), runs, schedule)
 
 
